@@ -25,6 +25,29 @@
     which is necessary: the Rust loops forever on `repeat(0, None, empty)`);
     `C02_terminates_loopFree` is the hypothesis-free case.
 
+  * `C02_F07r_*` — the productivity hypothesis is *semantic*, and finding F07r (the closure
+    of `recover_after` keeps its `found` flag when a recovery scan runs off the end of the
+    text after having seen its token; C12) makes a grammar violate it that consumes input
+    in every iteration by design:
+    `repeat(0, None, recover_option(stabilize(one(a)), recover_after(';')))` on the text
+    `d ; c ;` with a sink.  After iteration 1 (recovered past the first `;`), the nested
+    `stabilize` of every later iteration scans to the end of the text, sees the last `;`
+    and leaves the flag set; the enclosing `recover_option` then asks the same closure,
+    is told "finished" on the very first token, and returns `ok(None)` with the lexer it
+    was given.  `C02_F07r_body_not_productive`: `Prog` is false for this body (concrete
+    well-formed lexer and world, reached by iteration 1); `C02_F07r_not_RepOK`: so `RepOK`
+    is false for the grammar and `C02` does not apply (is not contradicted);
+    `C02_F07r_stuck_iteration`: one iteration from the stuck state returns the same lexer and
+    the same world with one more report in the log (any fuel ≥ 5, any log);
+    `C02_F07r_hang`: the run exhausts *every* fuel (`∀ n`), by the general
+    `C02_repeat_inplace_hang` (an unbounded `repeat` whose body succeeds in place from an
+    invariant set of worlds never returns).  Contrasts, by evaluation with symbolic fuel:
+    without the nested `stabilize` (`C02_F07r_contrast_no_stabilize`) and on the text
+    `d ; c` (`C02_F07r_contrast_no_trailing_token`) the same repetition returns `[None]`.
+    A `recover_before(';')` body is *not* a contrast: it hangs on the same text too
+    (`C02_before_body_hang`) — it never consumes the `;`, no flag involved; that is the
+    intended use of the hypothesis.
+
   Assumption of the model made explicit: the `id` of a `recover`/`list` node stands
   for the identity of its Rust closure object, so two nodes carrying the same id
   must carry the same predicate (`IdsFunctional`; always true for grammars read by
@@ -34,6 +57,7 @@
 -/
 import TephraModel.Run
 import TephraProofs.Termination
+import TephraProofs.TermWitness
 
 namespace Tephra.Props
 open Tephra Tephra.Term
@@ -179,6 +203,90 @@ theorem C02_prog_one {R : RunEnv} {m : Metrics} {len : Nat} (ok : ScanOK R.E m l
       · cases h; exact hn.2.2.1 rfl
       · cases h
     · cases h
+
+/-! ### F07r and termination -/
+
+section F07r
+open Tephra.TermWitness
+
+/-- An unbounded `repeat` whose repeated parser — after a first successful iteration
+ending at `lxS` in a world satisfying `Inv` — succeeds from `lxS` in every `Inv`-world with
+the same lexer `lxS` and an `Inv`-world again, exhausts every fuel. -/
+theorem C02_repeat_inplace_hang {R : RunEnv} {body : G} {lxS : Lx} {ctx : Ctx} {Inv : World → Prop} {k : Nat}
+    (step : ∀ n W, Inv W → ∃ v W', run R (n + k) body lxS ctx W = (.ok v lxS, W') ∧ Inv W')
+    {lx0 : Lx} {W0 W1 : World} {k0 : Nat} {v0 : Val}
+    (first : ∀ n, run R (n + k0) body lx0 ctx W0 = (.ok v0 lxS, W1)) (h1 : Inv W1) (v lo : Nat) :
+    ∀ n, (run R n (.repeat_ v lo none body) lx0 ctx W0).1 = .fuel :=
+  repeat_inplace_hang step first h1 v lo
+
+/-- The body `recover_option(stabilize(one(a)), recover_after(';'))` (closure 7) is not
+productive on `d ; c ;` (kinds 3 5 2 5, table scanner): from the well-formed lexer `lxS`
+(cursor after the first `;`, peeked at `c`, recover state `some 7`) and the world `W`
+reached by the first iteration from the initial state (closure 7 registered, flag clear,
+one report) the body succeeds and returns a lexer with the same cursor (indeed `lxS`). -/
+theorem C02_F07r_body_not_productive :
+    (∃ (lx : Lx) (W : World) (v : Val) (lx' : Lx),
+      WF TermWitness.m0 4 lx ∧
+      run TermWitness.R 5 TermWitness.body (Lexer.new 0 TermWitness.m0 4) ⟨true, [], false⟩ World.init = (.ok .none lx, W) ∧
+      lx.recover = some 7 ∧ lx.cursor = ⟨2, 0, 2⟩ ∧
+      W.specs = [(7, .after 5)] ∧ W.found = [] ∧
+      (run TermWitness.R 5 TermWitness.body lx ⟨true, [], false⟩ W).1 = .ok v lx' ∧ lx'.cursor = lx.cursor) ∧
+    ¬ Prog TermWitness.R TermWitness.m0 4 TermWitness.body :=
+  ⟨⟨lxS, WS [e0] [], .none, lxS, wfS, first_iter 0, rfl, rfl, rfl, rfl, congrArg Prod.fst (stuck_iter 0 [e0] []), rfl⟩,
+   body_not_productive⟩
+
+/-- one iteration from the stuck state, for every fuel ≥ 5 and every log / probe log:
+same lexer, same world but for one more report (`RecoverError`) in the log. -/
+theorem C02_F07r_stuck_iteration (n : Nat) (L : List PErr) (Pr : List String) :
+    run TermWitness.R (n + 5) TermWitness.body lxS ⟨true, [], false⟩ ⟨[(7, .after 5)], [], L, Pr⟩ =
+      (.ok .none lxS, ⟨[(7, .after 5)], [], L ++ [⟨[], .recover⟩], Pr⟩) :=
+  stuck_iter n L Pr
+
+/-- **The hang**: `repeat(0, None, recover_option(stabilize(one(a)), recover_after(';')))`
+on `d ; c ;` with a sink, from the initial state, exhausts every fuel. -/
+theorem C02_F07r_hang :
+    ∀ n, (run TermWitness.R n TermWitness.g (Lexer.new 0 TermWitness.m0 4) ⟨true, [], false⟩ World.init).1 = .fuel :=
+  hang
+
+/-- … so the hypothesis `RepOK` of `C02` is false for this grammar on this text (it has to
+be: the scanner satisfies `ScanOK`, the ids are functional, the initial state is
+well-formed), and `C02` is not contradicted. -/
+theorem C02_F07r_not_RepOK : ¬ RepOK TermWitness.R TermWitness.m0 4 TermWitness.g := not_repOK
+
+example : ScanOK TermWitness.R.E TermWitness.m0 4 ∧ IdsFunctional (recIds TermWitness.g) := by
+  refine ⟨ok0, ?_⟩
+  intro p hp q hq _
+  simp [TermWitness.g, TermWitness.body, recIds] at hp hq
+  rw [hp, hq]
+
+/-- `RepOK` false, derived from `C02` and the hang (the other hypotheses hold). -/
+example : ¬ RepOK TermWitness.R TermWitness.m0 4 TermWitness.g := by
+  intro h
+  exact C02_initial ok0 TermWitness.g
+    (by intro p hp q hq _; simp [TermWitness.g, TermWitness.body, recIds] at hp hq; rw [hp, hq]) h 0 _
+    (C02_F07r_hang _)
+
+/-- contrast: without the nested `stabilize` the repetition returns `[None]` (the flag is
+left set by the failed second iteration — F07r, harmless here). -/
+theorem C02_F07r_contrast_no_stabilize (n : Nat) :
+    run TermWitness.R (n + 8) (.repeat_ 0 0 none (.recover 0 7 (.one 0) (.after 5))) (Lexer.new 0 TermWitness.m0 4)
+      ⟨true, [], false⟩ World.init = (.ok (.list [.none]) lxS, WA [e0, eC] []) :=
+  noStab_terminates n
+
+/-- contrast: the same grammar on `d ; c` (no `;` for the failing scan to see) returns `[None]`. -/
+theorem C02_F07r_contrast_no_trailing_token (n : Nat) :
+    run Short.R3 (n + 9) TermWitness.g (Lexer.new 0 TermWitness.m0 3) ⟨true, [], false⟩ World.init =
+      (.ok (.list [.none]) Short.lxT, WS [e0, eR] []) :=
+  Short.terminates n
+
+/-- not a contrast: with `recover_before(';')` the same repetition hangs on the same text
+as well (it never consumes the `;`; no flag involved). -/
+theorem C02_before_body_hang :
+    ∀ n, (run TermWitness.R n (.repeat_ 0 0 none (.recover 0 7 (.stabilize (.one 0)) (.before 5)))
+      (Lexer.new 0 TermWitness.m0 4) ⟨true, [], false⟩ World.init).1 = .fuel :=
+  Before.hang
+
+end F07r
 
 /-! ### non-vacuity -/
 
